@@ -113,6 +113,8 @@ func runC18(c *Ctx, r *Report) {
 	r.Rule("C18.R1", "in repl.AutoSave the state file is named only as the destination of os.Rename(tmp, AutoSaveFile); tmp is the name of the file returned by os.CreateTemp(\".\", ...) (same directory); the rename is dominated by the err==nil edges of CreateTemp and of the write (SaveGlobals); the writer handed to SaveGlobals is that file itself (unbuffered) or a bufio.Writer on it whose checked Flush dominates the rename")
 	r.Rule("C18.R2", "no function reachable from AutoSave (static calls + interface invokes, module code) other than AutoSave's own CreateTemp/Rename calls a file-system mutator or starts a process")
 	r.Rule("C18.R4", "the write error is not masked: in AutoSave, State.SaveGlobals and Environment.SaveGlobals a deferred closure stores into a captured error result only under `result == nil`")
+	r.Rule("C18.R5", "no write error is dropped on the auto-save path: in AutoSave, the SaveGlobals functions and every module function they hand the writer to, every call that takes an io.Writer and returns an error has that error used")
+	c.checkSaveErrorsUsed(r, "C18.R5")
 	r.Rule("C18.R3", "after the rename no further file mutation happens in AutoSave; no file-mutating call precedes CreateTemp")
 
 	autoSave := c.Fn("repl", "AutoSave")
